@@ -11,7 +11,7 @@ import chython.periodictable as PT
 ID = 'C18'
 RULE = ('exhaustive: 118 elements x every tabulated isotope x charge -4..+4 x radical flag x H 0-6/unknown; per element '
         'the stated consistency relations are executed on the real accessors; pack/unpack and matcher encodings run on '
-        'the .pyx sources under pyxsan; a case = one (element, isotope|None, charge, radical, H) state, non-trivial = '
+        'the .pyx sources under pyxsan, isotope bits inside 46..62 and the observed four words of all states of an element pairwise distinct; a case = one (element, isotope|None, charge, radical, H) state, non-trivial = '
         'isotope set or charge != 0 or radical, distinct by that tuple')
 ASSUMPTIONS = ['CachedMethods compatibility shim', 'embedded IUPAC symbol table cross-checked with RDKit',
                'pack/unpack/matcher clauses observe the .pyx source semantics under pyxsan, not a compiled binary']
@@ -22,7 +22,7 @@ CONFIG = {
               'floors': {'elements': 118, 'isotopes': 300, 'pack.roundtrips': 3000, 'matcher.encodings': 1000}},
     'thorough': {'shards': 16, 'budget_s': 1500, 'exhaustive': True,
                  'exhaustive_subspaces': ['118 elements x tabulated isotopes x charge -4..+4 x radical x H 0-6/None'],
-                 'floors': {'elements': 118, 'isotopes': 300, 'pack.roundtrips': 100000, 'matcher.encodings': 1000}},
+                 'floors': {'elements': 118, 'isotopes': 300, 'pack.roundtrips': 70000, 'matcher.encodings': 1000}},
 }
 
 SYMBOLS = ('H He Li Be B C N O F Ne Na Mg Al Si P S Cl Ar K Ca Sc Ti V Cr Mn Fe Co Ni Cu Zn Ga Ge As Se Br Kr Rb Sr Y Zr '
